@@ -21,7 +21,7 @@ def jobs():
                      '(no C0 except TAB/LF/CR, no U+007F, no U+FDD0..FDEF, no U+xFFFE/xFFFF, no unpaired surrogate)'], timeout=900),
         Job('is_valid_name', 'utils_h.c', entry='harness_is_valid_name', enforce='cif_is_valid_name', tus=T,
             replace=['cif_has_whitespace', 'cif_has_disallowed_chars', 'u_countChar32_72'],
-            defines={'MAXN': 12}, thorough_defines={'MAXN': 48}, reach=['valid', 'invalid'], min_obligations=5,
+            defines={'MAXN': 12}, thorough_defines={'MAXN': 20}, reach=['valid', 'invalid'], min_obligations=5,
             clauses=['accepted <=> non-NULL, start rule ("_"+1 more / non-empty), code point count <= 2048 (names) / 2043 (codes), '
                      'no whitespace, no disallowed character'], trusted=[ICU], timeout=600),
         Job('cif_normalize_pipeline', 'utils_h.c', entry='harness_cif_normalize', enforce='cif_normalize', tus=T,
